@@ -96,6 +96,9 @@ func (b *gb) emitX(e *gexpr) {
 	case "state":
 		b.fm.call("AddStateChange", e.S)
 		return
+	case "dchar":
+		b.fm.call("AddDoubleCharacter", e.S)
+		return
 	case "range":
 		r := []rune(e.S)
 		b.fm.call("AddCharacter", string(r[0]))
@@ -238,7 +241,7 @@ func checkWholeCompile(c *Check, r *Repo) {
 // emitTree is emit with the extra operators of this file at every level.
 func (b *gb) emitTree(e *gexpr) {
 	switch e.Op {
-	case "state", "range":
+	case "state", "range", "dchar":
 		b.emitX(e)
 		return
 	case "seq", "alt":
